@@ -84,10 +84,10 @@ Definition work (bs : bytes) (s : st) : N := steps s + N.of_nat (List.length bs 
 
 Definition done_with {A} (v : verdict A) (P : st -> Prop) : Prop := exists a s, v = VDone a s /\ P s.
 
-(* thirteen bytes: 10^11 iterations and no allocation; or 1.6 TB *)
+(* thirteen bytes: 10^11 iterations; or 1.6 TB *)
 Lemma w_steps : done_with (U (B "a99999999999{") true (SArray 1 int_))
-  (fun s => (1000 * N.of_nat (List.length (B "a99999999999{")) + 1000000 < work (B "a99999999999{") s)%N /\ alloc s = 0%N).
-Proof. eexists; eexists; split; [vm_compute; reflexivity|]. vm_compute. split; reflexivity. Qed.
+  (fun s => (1000 * N.of_nat (List.length (B "a99999999999{")) + 1000000 < work (B "a99999999999{") s)%N).
+Proof. eexists; eexists; split; [vm_compute; reflexivity|]. vm_compute. reflexivity. Qed.
 
 Lemma w_alloc : done_with (U (B "a99999999999{") true SIface)
   (fun s => (1000000 * N.of_nat (List.length (B "a99999999999{")) + 1000000000 < alloc s)%N).
@@ -263,6 +263,8 @@ Proof.
 Qed.
 Lemma R_charge : forall s n, R s (charge s n).
 Proof. intros. unfold charge. destruct (n =? 0)%N; [apply R_refl|apply R_add_alloc]. Qed.
+Lemma R_add_rsv : forall s n, R s (add_rsv s n).
+Proof. intros. split; [cbn; lia|]. split; [unfold has_err; cbn; auto|]. split; [cbn; lia|rkeep s]. Qed.
 Lemma R_add_excess : forall s n, R s (add_excess s n).
 Proof. intros. split; [cbn; lia|]. split; [unfold has_err; cbn; auto|]. split; [cbn; lia|rkeep s]. Qed.
 Lemma R_add_steps : forall s n, R s (add_steps s n).
@@ -344,6 +346,7 @@ Ltac solveR :=
   | |- R ?s (add_class ?x _) => apply (R_trans s x); [solveR|apply R_add_class]
   | |- R ?s (add_alloc ?x _) => apply (R_trans s x); [solveR|apply R_add_alloc]
   | |- R ?s (add_excess ?x _) => apply (R_trans s x); [solveR|apply R_add_excess]
+  | |- R ?s (add_rsv ?x _) => apply (R_trans s x); [solveR|apply R_add_rsv]
   | |- R ?s (charge ?x _) => apply (R_trans s x); [solveR|apply R_charge]
   | |- R ?s (add_steps ?x _) => apply (R_trans s x); [solveR|apply R_add_steps]
   | |- R ?s (set_corrupt ?x) => apply (R_trans s x); [solveR|apply R_set_corrupt]
